@@ -64,7 +64,10 @@ impl JsonEncoder {
         time: DateTime<Local>,
         record: &Record,
     ) -> anyhow::Result<()> {
+        #[cfg(not(log4rs_verif))]
         let thread = thread::current();
+        #[cfg(log4rs_verif)]
+        let thread = crate::verif_hooks::FakeThread;
         let message = Message {
             time: time.format_with_items(Some(Item::Fixed(Fixed::RFC3339)).into_iter()),
             level: record.level(),
@@ -74,12 +77,29 @@ impl JsonEncoder {
             line: record.line(),
             target: record.target(),
             thread: thread.name(),
+            #[cfg(not(log4rs_verif))]
             thread_id: thread_id::get(),
+            #[cfg(log4rs_verif)]
+            thread_id: crate::verif_hooks::FAKE_THREAD_ID,
             mdc: Mdc,
         };
         message.serialize(&mut serde_json::Serializer::new(&mut *w))?;
         w.write_all(NEWLINE.as_bytes())?;
         Ok(())
+    }
+}
+
+#[cfg(log4rs_verif)]
+#[doc(hidden)]
+impl JsonEncoder {
+    /// The private encoding routine with an explicit time stamp, unchanged.
+    pub fn verif_encode_inner(
+        &self,
+        w: &mut dyn Write,
+        time: DateTime<Local>,
+        record: &Record,
+    ) -> anyhow::Result<()> {
+        self.encode_inner(w, time, record)
     }
 }
 
